@@ -101,10 +101,13 @@ def disconnect_contract():
 def handle_incoming_contract():
     ct = Contract(MC + "_handle_incoming", params={"self": CL},
                   requires=[H("connected", "not (self._client is None)"), Q_UNBOUNDED],
-                  modifies=QG,
+                  modifies=QG + ["ghost.broker_errors"],
                   ensures=[P("C18/receive-task-never-silent", "g('ghost.qlen') == old(g('ghost.qlen')) + 1 and "
                                                               "g('ghost.qat', old(g('ghost.qlen'))).message_type == 0 and "
-                                                              "is_transport_error(g('ghost.qat', old(g('ghost.qlen'))).error)")],
+                                                              "is_transport_error(g('ghost.qat', old(g('ghost.qlen'))).error)"),
+                           # "every broker message ... is received": a payload that cannot be decoded is reported and reception goes on;
+                           # the task returns only when the broker's message iterator itself has failed
+                           P("C18/reception-ends-only-on-a-broker-error", "g('ghost.broker_errors') == old(g('ghost.broker_errors')) + 1")],
                   raises={"CancelledError": [H("C18/cancelled", "True")]}, check_wf=False)
     ct.raises_only_id = "C18/receive-task-never-silent"
     return ct
